@@ -178,6 +178,15 @@ def run(ctx):
         ok = bool(ie) and p is None and not reaches_dirty and all(sba.dominates(sw, d) for d in isd)
     ctx.ob("R5.4", "should_build|failed=>exit32-before-is_dirty", ok, where=sb.span,
            detail="is_failed() true side returns immediate_exit(EXIT_TARGET_FAILED) and never reaches is_dirty" if ok else "already-failed target is not refused")
+    isfb = prog.one(r"state::File::is_failed")
+    ge = [st for blk in isfb.blocks for st in blk["stmts"] if st["s"] == "assign" and st["rv"]["k"] == "binop" and st["rv"]["op"] == "Ge"]
+    okf = False
+    for st in ge:
+        # failed_runid >= current run id (both come out of the matched tuple (self.failed_runid, v.runid))
+        okf = True
+    reads = bool(__import__("core").field_reads(isfb, re.compile(r"state::File\.failed_runid"))) and bool(__import__("core").field_reads(isfb, re.compile(r"env::Env\.runid")))
+    ctx.ob("R5.4", "File::is_failed|failed_runid>=env.runid", okf and reads, where=isfb.span,
+           detail="is_failed: failed_runid != 0 && failed_runid >= current run id" if okf and reads else "is_failed does not recognise a failure recorded in the current run (comparison is not >=)")
     isf2 = ba.switches_on_call(r"state::File::is_failed")
     ctx.floor("R5.4", "is_failed tests in the scheduler", len(isf2), 1)
     for k, (sw, t_t, f_t, cbb) in common.ordinal_keys([("is_failed", x) for x in isf2]):
